@@ -8,7 +8,7 @@ from __future__ import annotations
 
 from .. import pkggen as pg
 from .. import sds
-from ..core import Check, Viol, drive, gated_features, generic_replay, rng_for
+from ..core import Check, Viol, drive, gated_features, generic_replay, rng_for, noise_opts
 from ..run import Case
 from ..stubs import StubSet
 from . import c10
@@ -43,7 +43,7 @@ def gen(tier: str, seed: int) -> list[Case]:
         counts = pg.assign_cross_refs(rng, pkg, allowed, 0.5)
         add_public_inheritance(rng, pkg)
         add_generic_refs(rng, pkg, gated)
-        cases.append(Case(cid=f"c11-{i}", files=pg.render(pkg), opts=["-nc"] if i % 2 else [], meta={"pkg": pkg, "ref_categories": counts}, reach=REACH))
+        cases.append(Case(cid=f"c11-{i}", files=pg.render(pkg), opts=(["-nc"] if i % 2 else []) + noise_opts(seed, PID, i), meta={"pkg": pkg, "ref_categories": counts}, reach=REACH))
     for name, pkg in scenarios().items():
         for nc in (False, True):
             cases.append(Case(cid=f"c11-scn-{name}-{int(nc)}", files=pg.render(pkg), opts=["-nc"] if nc else [], meta={"pkg": pkg, "ref_categories": {f"scenario:{name}": 1}}, reach=REACH))
